@@ -707,7 +707,21 @@ void SoPlexBase<R>::_storeSolutionReal(bool verify)
    else if(_realLP != &_solver)
    {
       assert(_solver.isScaled());
+
+      // load original problem but don't setup a slack basis
       _loadRealLP(false);
+
+      // the dual norms were computed for the scaled problem
+      _solver.weightsAreSetup = false;
+
+      assert(_realLP == &_solver);
+      assert(_basisStatusRows.size() == numRows());
+      assert(_basisStatusCols.size() == this->numCols());
+
+      // loading the LP has discarded the basis of the solver; since _isRealLPLoaded is true again, the solver is
+      // the only place where the basis is looked up, so hand the stored basis back to it
+      _solver.setBasis(_basisStatusRows.get_const_ptr(), _basisStatusCols.get_const_ptr());
+      _hasBasis = (_solver.basis().status() > SPxBasisBase<R>::NO_PROBLEM);
    }
 
    // unscale stored solution (removes persistent scaling)
